@@ -1,0 +1,64 @@
+//! Verification hooks. Only compiled with cargo feature `verif-hooks`.
+//!
+//! - poison: `Shards::resize` overwrites the whole working memory with
+//!   seeded pseudo-random bytes.
+//! - feature mask: runtime SIMD detection in `DefaultEngine` is ANDed
+//!   with a settable mask.
+//! - ISA trace: every `#[target_feature]` entry point records its ISA.
+
+use std::sync::atomic::{AtomicU32, AtomicU64, Ordering};
+
+/// ISA bit: AVX2.
+pub const ISA_AVX2: u32 = 1;
+/// ISA bit: SSSE3.
+pub const ISA_SSSE3: u32 = 2;
+/// ISA bit: Neon.
+pub const ISA_NEON: u32 = 4;
+
+static POISON: AtomicU64 = AtomicU64::new(0);
+static MASK: AtomicU32 = AtomicU32::new(u32::MAX);
+static TRACE: AtomicU32 = AtomicU32::new(0);
+
+/// Enables (non-zero seed) or disables (`None`) poisoning of working memory.
+pub fn set_poison(seed: Option<u64>) {
+    POISON.store(seed.map_or(0, |s| s | 1), Ordering::SeqCst);
+}
+
+/// Restricts the SIMD features runtime detection may report.
+pub fn set_feature_mask(mask: u32) {
+    MASK.store(mask, Ordering::SeqCst);
+}
+
+/// Returns and clears the set of ISAs whose entry points ran.
+pub fn isa_trace_take() -> u32 {
+    TRACE.swap(0, Ordering::SeqCst)
+}
+
+#[allow(dead_code)]
+pub(crate) fn feature_allowed(isa: u32) -> bool {
+    MASK.load(Ordering::SeqCst) & isa != 0
+}
+
+#[allow(dead_code)]
+pub(crate) fn trace(isa: u32) {
+    TRACE.fetch_or(isa, Ordering::Relaxed);
+}
+
+pub(crate) fn poison(data: &mut [[u8; 64]]) {
+    let seed = POISON.load(Ordering::SeqCst);
+    if seed == 0 {
+        return;
+    }
+    // splitmix64, advanced per call so that consecutive resizes differ.
+    let mut state = POISON.fetch_add(0x9E37_79B9_7F4A_7C15, Ordering::SeqCst);
+    for chunk in data.iter_mut() {
+        for word in chunk.chunks_exact_mut(8) {
+            state = state.wrapping_add(0x9E37_79B9_7F4A_7C15);
+            let mut z = state;
+            z = (z ^ (z >> 30)).wrapping_mul(0xBF58_476D_1CE4_E5B9);
+            z = (z ^ (z >> 27)).wrapping_mul(0x94D0_49BB_1331_11EB);
+            z ^= z >> 31;
+            word.copy_from_slice(&z.to_le_bytes());
+        }
+    }
+}
